@@ -133,10 +133,10 @@ def is_content_match(torrent, candidate):
         check_piece_indexes = set()
         for file in torrent.files:
             all_file_piece_indexes = tfs.get_piece_indexes_of_file(file)
-            middle_piece_index = int(len(all_file_piece_indexes) / 2)
+            middle = int(len(all_file_piece_indexes) / 2)
             some_file_piece_indexes = (
                 all_file_piece_indexes[:1]
-                + [middle_piece_index]
+                + all_file_piece_indexes[middle:middle + 1]
                 + all_file_piece_indexes[-1:]
             )
             check_piece_indexes.update(some_file_piece_indexes)
